@@ -11,6 +11,7 @@ import (
 	"strconv"
 	"testing"
 
+	"github.com/0xrawsec/sod"
 	"pgregory.net/rapid"
 )
 
@@ -318,11 +319,108 @@ func TestC18GoldenAll(t *testing.T) {
 func init() {
 	replayers["C18"] = func(t *testing.T, prog *Program) {
 		guardT(t, prog, func() {
-			if _, ok := prog.Aux["golden"]; ok {
+			if prog.Aux["names"] == true {
+				TestC18Names(t)
+			} else if _, ok := prog.Aux["golden"]; ok {
 				caseC18Golden(t, prog)
 			} else {
 				caseC18Fresh(t, prog)
 			}
 		})
+	}
+}
+
+// ---- directory names of differently shaped type names
+
+type HTTPDoc struct {
+	sod.Item
+	N int `sod:"index"`
+}
+
+type X509 struct {
+	sod.Item
+	N int `sod:"index"`
+}
+
+type T struct {
+	sod.Item
+	N int `sod:"index"`
+}
+
+type Snake_ID2Doc struct {
+	sod.Item
+	N int `sod:"index"`
+}
+
+func nameTypes() map[string]sod.Object {
+	return map[string]sod.Object{"Doc": &Doc{}, "Other": &Other{}, "HTTPDoc": &HTTPDoc{}, "X509": &X509{}, "T": &T{}, "Snake_ID2Doc": &Snake_ID2Doc{}}
+}
+
+// dirNamesNow: for every type and both LowercaseNames settings, the directory
+// a Create produces.
+func dirNamesNow(t TB) map[string]string {
+	out := map[string]string{}
+	for _, lower := range []bool{false, true} {
+		root := newRoot()
+		sod.LowercaseNames = lower
+		db := sod.Open(root)
+		for name, o := range nameTypes() {
+			before, _ := os.ReadDir(root)
+			if err := db.Create(o, sod.DefaultSchema); err != nil {
+				t.Fatalf("Create %s: %v", name, err)
+			}
+			after, _ := os.ReadDir(root)
+			seen := map[string]bool{}
+			for _, b := range before {
+				seen[b.Name()] = true
+			}
+			for _, a := range after {
+				if !seen[a.Name()] {
+					out[fmt.Sprintf("%s/lower=%v", name, lower)] = a.Name()
+				}
+			}
+		}
+		db.Close()
+		os.RemoveAll(root)
+	}
+	sod.LowercaseNames = false
+	return out
+}
+
+// TestGenGoldenNames records the names produced by the pinned release.
+func TestGenGoldenNames(t *testing.T) {
+	out := os.Getenv("GOLDEN_OUT")
+	if out == "" {
+		t.Skip("GOLDEN_OUT not set")
+	}
+	b, _ := json.MarshalIndent(dirNamesNow(t), "", " ")
+	if err := os.WriteFile(filepath.Join(out, "names.json"), b, 0644); err != nil {
+		t.Fatal(err)
+	}
+}
+
+// TestC18Names: collection directories are named as the pinned release named them.
+func TestC18Names(t *testing.T) {
+	st := statsFor("C18")
+	root := os.Getenv("VERIF_GOLDEN")
+	if root == "" {
+		root = "/verif/golden"
+	}
+	b, err := os.ReadFile(filepath.Join(root, "names.json"))
+	if err != nil {
+		t.Fatalf("golden names missing: %v", err)
+	}
+	want := map[string]string{}
+	json.Unmarshal(b, &want)
+	got := dirNamesNow(t)
+	for k, w := range want {
+		flags := map[string]int{"directory-name": 1}
+		if got[k] != w {
+			prog := &Program{Property: "C18", Aux: map[string]interface{}{"names": true}}
+			msg := fmt.Sprintf("collection directory of type %s is %q, the pinned release names it %q", k, got[k], w)
+			recordFailure(prog, msg)
+			t.Fatalf("%s", msg)
+		}
+		st.Case(uint64(len(k))*1000003+uint64(len(w)), true, flags, func() interface{} { return map[string]string{k: w} })
 	}
 }
